@@ -126,6 +126,74 @@ theorem sys_counts_when_idle {x : SY.Sys × Cnt} (h : ReachC x) (hh : x.1.drv.ha
   exact ⟨⟨by omega, by omega⟩, ⟨by omega, by omega⟩, ⟨by omega, by omega⟩, ⟨by omega, by omega⟩,
     ⟨by omega, by omega⟩, hans⟩
 
+theorem SY.restarts_tail {l : List MmuReq} {r : MmuReq} {g k : Nat} (hl : l.getLast? = some r)
+    (hg : g + r.acc.length = sumAcc l) (hk : k + 1 = l.length) : g = sumAcc (l.take k) := by
+  obtain ⟨ys, rfl⟩ := List.getLast?_eq_some_iff.mp hl
+  rw [sumAcc_snoc] at hg
+  simp only [List.length_append, List.length_cons, List.length_nil] at hk
+  have hk' : k = ys.length := by omega
+  subst hk'
+  rw [List.take_left']
+  · omega
+  · rfl
+
+/-- **sys_restarts_match_answers.** In every state of every monitored run: the GPU-restart commands created
+    so far (entered the port + queued) are exactly Σ `acc` over the requests whose answer to the MMU has been
+    prepared (sent into the MMU port or waiting in `toSendToMMU`) — `handshake_ordered`'s
+    "restarts = acc × MMU answers" with per-request `acc`; requests are answered in the order taken
+    (`mmu_answered_once_in_order`), so these are the first `answers` requests. -/
+theorem sys_restarts_match_answers {x : SY.Sys × Cnt} (h : ReachC x) :
+    x.2.cG + cnt isG x.1.drv.toSend =
+      sumAcc (x.2.reqs.take (x.1.drv.answered.length + (if x.1.drv.toMMU.isSome then 1 else 0))) := by
+  obtain ⟨I, C⟩ := reachC_ici h
+  have g1 := C.g1
+  have hl : x.2.reqs.length = x.1.drv.taken.length := by rw [← C.ids, List.length_map]
+  have hlen : ∀ pc, MmuInv x.1 pc →
+      x.1.drv.answered.length + (if x.1.drv.toMMU.isSome then 1 else 0) + pc.length = x.2.reqs.length := by
+    intro pc hm
+    have := congrArg List.length hm.ans
+    cases ht : x.1.drv.toMMU <;> simp [ht] at this ⊢ <;> omega
+  cases I.ph with
+  | idle hd _ _ hm =>
+    obtain ⟨c1, c2, c3, _, _⟩ := hd.ctrs
+    simp only [reduceCtorEq, if_false] at c1 c2 c3
+    have hp : pendG x.1.drv = 0 := by simp [pendG, c1, c2, c3]
+    have := hlen _ hm
+    simp only [List.length_nil, Nat.add_zero] at this
+    rw [this, List.take_length]; omega
+  | mig r fl ws _ hc hr hct hmp _ hm =>
+    have hpos := hmp.pos
+    have hp : pendG x.1.drv = r.acc.length := by simp [pendG, curAcc, hc, hpos]
+    have := hlen _ hm
+    simp only [List.length_cons, List.length_nil] at this
+    exact SY.restarts_tail (C.cur r hc) (by omega) (by omega)
+  | bcast p r σ loc hp _ hc hr hct _ _ hb _ hm =>
+    obtain ⟨c1, c2, c3, _, _⟩ := ctrs_at hct
+    have hpos := hb.pos
+    have hk := hlen _ hm
+    cases p with
+    | mig => exact absurd rfl hp
+    | drain =>
+      simp only [if_true] at c1
+      have hpd : pendG x.1.drv = r.acc.length := by simp [pendG, curAcc, hc, c1, hpos]
+      simp only [true_or, if_true, List.length_cons, List.length_nil] at hk
+      exact SY.restarts_tail (C.cur r hc) (by omega) (by omega)
+    | shoot =>
+      simp only [if_true] at c2
+      have hpd : pendG x.1.drv = r.acc.length := by simp [pendG, curAcc, hc, c2, hpos]
+      simp only [or_true, if_true, List.length_cons, List.length_nil] at hk
+      exact SY.restarts_tail (C.cur r hc) (by omega) (by omega)
+    | restart =>
+      simp only [reduceCtorEq, if_false] at c1 c2 c3
+      have hpd : pendG x.1.drv = 0 := by simp [pendG, c1, c2, c3]
+      simp only [reduceCtorEq, or_self, if_false, List.length_nil, Nat.add_zero] at hk
+      rw [hk, List.take_length]; omega
+    | rdma =>
+      simp only [reduceCtorEq, if_false] at c1 c2 c3
+      have hpd : pendG x.1.drv = 0 := by simp [pendG, c1, c2, c3]
+      simp only [reduceCtorEq, or_self, if_false, List.length_nil, Nat.add_zero] at hk
+      rw [hk, List.take_length]; omega
+
 /-! ## the theorems are not vacuous: the monitor on the complete handshake of `Props/C19Sys.lean` -/
 
 def demoX0 : SY.Sys × Cnt := stepC (demoS0, {}) (.mmuSend demoReq)
@@ -162,6 +230,14 @@ example : ReachC (runC demoX0 demoMoves) ∧
   refine ⟨?_, by decide +kernel, by decide +kernel, by decide +kernel, by decide +kernel, by decide +kernel⟩
   have := demoC_reach demoMoves.length
   rwa [List.take_length] at this
+
+/-- `sys_restarts_match_answers` is not vacuous: no answer and no restart while the copy is in flight, one answer
+    and two restarts (both GPUs accessing) at the end -/
+example : (runC demoX0 (demoMoves.take 55)).1.drv.answered.length = 0 ∧
+    (runC demoX0 (demoMoves.take 55)).1.drv.toMMU.isSome = false ∧
+    (runC demoX0 demoMoves).1.drv.answered.length = 1 ∧
+    sumAcc ((runC demoX0 demoMoves).2.reqs.take 1) = 2 := by
+  refine ⟨by decide +kernel, by decide +kernel, by decide +kernel, by decide +kernel⟩
 
 /-- `monitored_runs_are_all_runs` is not vacuous: the monitored demo run projects to the demo run -/
 example : (runC demoX0 demoMoves).1.drv.answered = (SY.run (SY.step demoS0 (.mmuSend demoReq)) demoMoves).drv.answered := by
